@@ -470,7 +470,7 @@ def syntax_quote_specs(timeout):
 
 def run(rep, tier, seed):
     quick = tier == "quick"
-    to = 60 if quick else 400
+    to = 60 if quick else 150
     rep.encoded_lisp("src/basilisp/core.lpy", ["destructure", "let", "fn", "loop", "macroexpand"], "compiled from source")
     rep.encoded("src/basilisp/lang/reader.py", ["_read_syntax_quoted", "_process_syntax_quoted_form", "_expand_syntax_quote"], "executed when the templates are read")
     rep.encoded("src/basilisp/lang/compiler/analyzer.py", ["macroexpand", "macroexpand_1"], "executed")
@@ -485,7 +485,7 @@ def run(rep, tier, seed):
     # generated patterns over the documented vocabulary (depth <= 3): featured ones in every run + seeded random ones
     from .c09_grammar import generate
     gforms = ["let", "fn-param", "loop"]
-    for i, (pname, pat) in enumerate(generate(seed, 14, 3, 4) if quick else generate(seed, 60)):
+    for i, (pname, pat) in enumerate(generate(seed, 14, 3, 4) if quick else generate(seed, 30)):
         fs = [gforms[i % 3]] if quick else gforms
         if pat[0] == "map" and (not quick or pname.endswith("defaults")):
             fs = fs + ["kwargs"]
@@ -495,7 +495,7 @@ def run(rep, tier, seed):
             specs.append(grammar_spec(pname, pat, f, to * 2 if (quick and big) else to, quick))
     specs += syntax_quote_specs(to)
     from .c09_sq import generate as sq_generate
-    specs += [sq_template_spec(n_, t_, to) for n_, t_ in sq_generate(seed, 8 if quick else 60)]
+    specs += [sq_template_spec(n_, t_, to) for n_, t_ in sq_generate(seed, 8 if quick else 40)]
     rep.bounds = {"destructuring": f"{len(SEQ_PATTERNS) + len(MAP_PATTERNS)} patterns (depth <= 2) x {forms}; values: vector/list/lazy seq/nil of <= 3 "
                                    "nil/int (one nested), maps with symbolic key presence, nil",
                   "syntax-quote": "4 templates; unquoted int, spliced seq of <= 3; gensyms: same within a template, different between templates and between two reads of the same text"}
